@@ -94,6 +94,11 @@ pub struct PFunc {
     /// docstring layout: 0 one-line, 1 summary + indented block, 2 starts on the next line,
     /// 3 single quotes one-liner, 4 raw prefix, 5 with blank lines and deeper indentation, 6 empty string
     pub doc: Option<u8>,
+    /// layout 7: generated docstring lines (indentation choice, kind) - text lines at the base
+    /// indentation plus 0/2/4/6 columns, empty lines, whitespace-only lines shorter / longer than the
+    /// margin, a lone tab
+    #[serde(default)]
+    pub doc_lines: Vec<(u8, u8)>,
     pub body: PBody,
     /// 0 single line, 1 one parameter per line + trailing comma, 2 per line no trailing comma, 3 hanging indent
     pub sig: u8,
@@ -230,12 +235,13 @@ pub fn func(cfg: &PyGenCfg, role: u8) -> BoxedStrategy<PFunc> {
         decos,
         vec(param(cfg), 0..=4),
         prop_oneof![2 => Just(None), 3 => (0u8..RETS.len() as u8).prop_map(Some)],
-        prop_oneof![2 => Just(None), 3 => (0u8..7).prop_map(Some)],
+        prop_oneof![4 => Just(None), 5 => (0u8..7).prop_map(Some), 3 => Just(Some(7u8))],
+        vec((0u8..8, 0u8..7), 1..=6),
         body(),
         sig,
         uses,
     )
-        .prop_map(move |(name, is_async, decos, params, ret, doc, body, sig, body_uses)| PFunc { name, role, is_async, decos, params, ret, doc, body, sig, body_uses })
+        .prop_map(move |(name, is_async, decos, params, ret, doc, doc_lines, body, sig, body_uses)| PFunc { name, role, is_async, decos, params, ret, doc, doc_lines: if doc == Some(7) { doc_lines } else { Vec::new() }, body, sig, body_uses })
         .boxed()
 }
 
@@ -580,7 +586,24 @@ fn render_body(r: &mut R, depth: usize, f: &PFunc) {
     }
 }
 
-fn render_doc(r: &mut R, depth: usize, layout: u8, tag: &str) {
+fn render_doc(r: &mut R, depth: usize, layout: u8, tag: &str, gen_lines: &[(u8, u8)]) {
+    if layout % 8 == 7 {
+        let base = r.ind(depth);
+        let first_has_text = gen_lines.first().map(|l| l.0 % 2 == 0).unwrap_or(true);
+        r.line(depth, &format!("\"\"\"{}", if first_has_text { format!("Gen {}.", tag) } else { String::new() }));
+        for (k, (ind, kind)) in gen_lines.iter().enumerate().skip(1) {
+            let extra = ["", "  ", "    ", "      "][(*ind % 4) as usize];
+            match kind % 7 {
+                0 | 1 | 2 => r.out.push(format!("{}{}text {} of {}", base, extra, k, tag)),
+                3 => r.out.push(String::new()),
+                4 => r.out.push(" ".repeat((*ind % 7) as usize)),
+                5 => r.out.push(format!("{}{}  ", base, extra)),
+                _ => r.out.push("\t".to_string()),
+            }
+        }
+        r.line(depth, "\"\"\"");
+        return;
+    }
     match layout % 7 {
         0 => r.line(depth, &format!("\"\"\"Doc {} one line.\"\"\"", tag)),
         1 => {
@@ -672,7 +695,7 @@ pub fn render_func(r: &mut R2, depth: usize, f: &PFunc, in_class: bool) {
         _ => r.line(depth, &format!("{} {}({}){}:", kw, name, parts.join(", "), ret)),
     }
     if let Some(l) = f.doc {
-        render_doc(r, depth + 1, l, &name);
+        render_doc(r, depth + 1, l, &name, &f.doc_lines);
     }
     render_body(r, depth + 1, f);
     r.out.push(String::new());
